@@ -21,7 +21,7 @@ N(n) == NatToStr(n)
 (*****************************  column types  ******************************)
 MyType(t) ==
   CASE t.k = "Char" -> IF Has2(t, "n") THEN "char(" \o N(t.n) \o ")" ELSE "char"
-    [] t.k = "String" -> IF Has2(t, "n") THEN "varchar(" \o N(t.n) \o ")" ELSE "varchar(255)"
+    [] t.k = "String" -> IF Has2(t, "n") THEN "varchar(" \o N(t.n) \o ")" ELSE IF Flag(t, "max") THEN "varchar(65535)" ELSE "varchar(255)"
     [] t.k = "Text" -> "text"
     [] t.k \in {"TinyInteger", "TinyUnsigned"} -> "tinyint" [] t.k \in {"SmallInteger", "SmallUnsigned"} -> "smallint"
     [] t.k \in {"Integer", "Unsigned"} -> "int" [] t.k \in {"BigInteger", "BigUnsigned"} -> "bigint"
@@ -36,10 +36,12 @@ MyType(t) ==
     [] t.k = "VarBit" -> "bit(" \o N(t.n) \o ")"
     [] t.k = "Boolean" -> "bool" [] t.k \in {"Json", "JsonBinary"} -> "json" [] t.k = "Uuid" -> "binary(16)"
     [] t.k = "Enum" -> "ENUM('" \o JoinStrs([i \in DOMAIN t.variants |-> EscapeB("mysql", t.variants[i])], "', '") \o "')"
+    [] t.k = "Custom" -> t.name [] t.k = "Interval" -> "unsupported"
     [] OTHER -> Unsup
 MyTypeFull(t) == IF MyType(t) = Unsup THEN Unsup
                  ELSE MyType(t) \o (IF t.k \in {"TinyUnsigned", "SmallUnsigned", "Unsigned", "BigUnsigned"} THEN " UNSIGNED" ELSE "")
 
+RECURSIVE PgType(_)
 PgType(t) ==
   CASE t.k = "Char" -> IF Has2(t, "n") THEN "char(" \o N(t.n) \o ")" ELSE "char"
     [] t.k = "String" -> IF Has2(t, "n") THEN "varchar(" \o N(t.n) \o ")" ELSE "varchar"
@@ -58,6 +60,10 @@ PgType(t) ==
     [] t.k = "Json" -> "json" [] t.k = "JsonBinary" -> "jsonb" [] t.k = "Uuid" -> "uuid"
     [] t.k = "Enum" -> t.name
     [] t.k = "Cidr" -> "cidr" [] t.k = "Inet" -> "inet" [] t.k = "MacAddr" -> "macaddr" [] t.k = "LTree" -> "ltree"
+    [] t.k = "Custom" -> t.name
+    [] t.k = "Array" -> IF PgType(t.elem) = Unsup THEN Unsup ELSE PgType(t.elem) \o "[]"
+    [] t.k = "Interval" -> "interval" \o (IF Has2(t, "n") THEN "(" \o N(t.n) \o ")" ELSE "")
+    [] t.k = "Vector" -> IF Has2(t, "n") THEN "vector(" \o N(t.n) \o ")" ELSE "vector"
     [] OTHER -> Unsup
 PgSerial(t) == CASE t.k = "SmallInteger" -> "smallserial" [] t.k = "Integer" -> "serial" [] t.k = "BigInteger" -> "bigserial" [] OTHER -> Unsup
 
@@ -77,6 +83,7 @@ LiteType(t, autoinc) ==
     [] t.k = "Blob" -> "blob" [] t.k = "Boolean" -> "boolean"
     [] t.k = "Money" -> IF Has2(t, "p") THEN "real_money(" \o N(t.p) \o ", " \o N(t.s) \o ")" ELSE "real_money"
     [] t.k = "Json" -> "json_text" [] t.k = "JsonBinary" -> "jsonb_text" [] t.k = "Uuid" -> "uuid_text" [] t.k = "Enum" -> "enum_text"
+    [] t.k = "Custom" -> t.name
     [] OTHER -> Unsup
 
 (************************  column specifications  **************************)
@@ -114,7 +121,7 @@ ColumnDef(B, c) ==
 
 (***************************  indexes, keys  *******************************)
 IdxColsText(B, cs) ==
-  "(" \o Sep([i \in DOMAIN cs |-> Q(B, cs[i].n) \o (IF Has2(cs[i], "o") THEN (IF cs[i].o = "Asc" THEN " ASC" ELSE " DESC") ELSE "")]) \o ")"
+  "(" \o Sep([i \in DOMAIN cs |-> Q(B, cs[i].n) \o (IF Has2(cs[i], "p") /\ B # "sqlite" THEN " (" \o N(cs[i].p) \o ")" ELSE "") \o (IF Has2(cs[i], "o") THEN (IF cs[i].o = "Asc" THEN " ASC" ELSE " DESC") ELSE "")]) \o ")"
 IdxType(x) == IF Has2(x, "index_type") THEN x.index_type ELSE ""
 MyUsing(x) == CASE IdxType(x) = "BTree" -> " USING BTREE" [] IdxType(x) = "Hash" -> " USING HASH" [] OTHER -> ""
 PgUsing(x) == CASE IdxType(x) = "BTree" -> " USING BTREE" [] IdxType(x) = "Hash" -> " USING HASH" [] IdxType(x) = "FullText" -> " USING GIN" [] OTHER -> ""
